@@ -548,6 +548,27 @@ func harnessC04world() {
 	w := wSetup(o)
 	c, p := w.c, w.p
 	wBehave(w, behaviour, d)
+	if vChoice(2) == 1 {
+		// a history in which the protocol client could not be built: the plugin started, then stopped answering
+		// (or crashed) before the host connected; Client() fails (net/rpc) or succeeds lazily (gRPC); then Kill
+		_, err := c.Start()
+		vAssume(err == nil)
+		if vChoice(2) == 1 {
+			p.frozen = true
+		} else {
+			p.die()
+		}
+		vSleepUntil(3 * sec)
+		_, cerr := c.Client()
+		if cerr != nil {
+			vCover("client-failed-before-kill")
+		}
+		r := wTimed(func() error { c.Kill(); return nil })
+		vAssert(!r.panicked, "C04: Kill does not panic after a failed Client()")
+		vAssert(r.took <= 5*sec, "C04: Kill returns within a bounded time after a failed Client()")
+		vAssert(p.isDead && c.Exited(), "C04: after Kill the plugin has exited and is reported so (failed Client() before)")
+		vDone()
+	}
 	cp, err := c.Client()
 	vAssume(err == nil)
 	raw, err := cp.Dispense("test")
@@ -795,21 +816,27 @@ func harnessC18world() {
 			}()
 			vAssert(<-done == 100, "C18: a brokered callback from the plugin reaches the host's server")
 		}
-		if vChoice(2) == 1 { // the plugin serves, the host dials
+		if nsrv := vChoice(3); nsrv > 0 { // the plugin serves one or two brokered servers, the host dials
 			vCover("plugin-serves")
-			go func() {
-				vSetProc(p.id)
-				pbk.AcceptAndServe(12, func(opts []grpc.ServerOption) *grpc.Server {
-					s := grpc.NewServer(opts...)
-					wRegisterUser(s, "test", &wImpl{tag: 200})
-					return s
-				})
-			}()
-			cc, err := hb.Dial(12)
-			vAssert(err == nil, "C18: the host dials the plugin's brokered server")
-			t, err := wWhoami(cc, ctx)
-			vAssert(err == nil && t == 200, "C18: a brokered call from the host reaches the plugin's server")
-			cc.Close()
+			for k := 0; k < nsrv; k++ {
+				id, tag := uint32(12+2*k), 200+k
+				go func() {
+					vSetProc(p.id)
+					pbk.AcceptAndServe(id, func(opts []grpc.ServerOption) *grpc.Server {
+						s := grpc.NewServer(opts...)
+						wRegisterUser(s, "test", &wImpl{tag: tag})
+						return s
+					})
+				}()
+				cc, err := hb.Dial(id)
+				vAssert(err == nil, "C18: the host dials the plugin's brokered server")
+				t, err := wWhoami(cc, ctx)
+				vAssert(err == nil && t == tag, "C18: a brokered call from the host reaches the plugin's server")
+				cc.Close()
+			}
+			if nsrv == 2 {
+				vCover("two-plugin-servers")
+			}
 		}
 		if !o.mux && !o.cmd && vChoice(2) == 1 { // a host-side brokered listener (in the runner's socket directory) still open when the client is killed
 			vCover("host-listener-left-open")
